@@ -134,6 +134,7 @@ def edits(entry):
 # mutants that need a rare conjunction (e.g. a 3-piece write, a foreign whole write in the gap and a death);
 # `check sensitivity --hard --tier thorough` is the place for them
 HARD = [
+    ("C16", "revert-F8", [("patch", "revert-F8.diff", None)]),
     ("C16", "tmp-name-shared", "bisturi/codegen.py",
      "        tmp_pathname = \"%s.%i.%08x.tmp\" % (\n            module_pathname, os.getpid(), random.getrandbits(32)\n        )\n",
      "        tmp_pathname = module_pathname + '.tmp'\n"),
